@@ -157,11 +157,19 @@ def run(res):
         # ---- bounds 0 < edof <= min(n, m)
         if not (0 < edof <= min(n, scn['m']) * (1 + 1e-9)):
             res.violations.append(dict(what='edof outside (0, min(n, m)]', finding=None, input=d, observed=edof, expected='(0, %d]' % min(n, scn['m'])))
+        if not (math.isfinite(float(st['deviance'])) and math.isfinite(float(st['loglikelihood']))):
+            # a mean saturated to exactly 0 or `levels` in binary64 next to a target that is not: deviance / log-likelihood are infinite, and so are
+            # the statistics derived from them; nothing finite to compare (the edof / covariance certificate above is still checked)
+            res.count('non-finite deviance or log-likelihood (mean saturated in binary64): derived statistics not compared')
+            continue
         # ---- deviance: sum of generated (scaled) unit deviances
         if n <= 45 and (y > 0).all() or cls in ('LinearGAM', 'ExpectileGAM', 'LogisticGAM', 'PoissonGAM'):
             terms = ' + '.join('Gen_%s_deviance true %s 1 %s %s %s' % (fam, rlit(sc), rlit(a), rlit(b), rlit(c)) for a, b, c in zip(w, y, mu))
             canc = float(np.sum(np.abs(w) * (np.abs(y) + np.abs(mu)) * 50)) / sc if fam in ('BinomialDist', 'PoissonDist', 'GammaDist') else 0.0
-            goals.append(goal('(%s)' % terms, float(st['deviance']), canc * 1e-3)); gmeta.append(dict(d, stat='deviance', value=float(st['deviance'])))
+            if math.isfinite(float(st['deviance'])):
+                goals.append(goal('(%s)' % terms, float(st['deviance']), canc * 1e-3)); gmeta.append(dict(d, stat='deviance', value=float(st['deviance'])))
+            else:
+                res.count('non-finite deviance statistic (saturated mean equal to 0 or levels in binary64): not compared')
         # ---- log-likelihood (SciPy reference)
         ll = float(st['loglikelihood'])
         if cls != 'ExpectileGAM':
